@@ -1343,7 +1343,9 @@ class Mode(Reduction):
     reduction_aggregate = staticmethod(_mode_aggregate)
 
     def _divisions(self):
-        return self.frame.divisions[0], self.frame.divisions[-1]
+        # the modes are numbered 0, 1, ...: the index of the input says
+        # nothing about them
+        return (None, None)
 
     @property
     def chunk_kwargs(self):
